@@ -16,6 +16,7 @@ MCStep ==
   \/ \E k \in Peers : FrameStep(k) /\ Spend(k, "f")
   \/ \E k \in Peers : (HTickKA(k) \/ \E ul \in Rates : HTickStats(k, 0, ul)) /\ Spend(k, "t")
   \/ \E k \in Peers : (HStart(k) \/ HBroadHave(k) \/ HBroadState(k) \/ HBroadReleased(k) \/ \E n \in Pipeline : HReply(k, n)) /\ UNCHANGED fuel
+  \/ \E k \in Peers : FK("Bad") /\ HReplyLost(k) /\ Spend(k, "f")
   \/ ManagerStep /\ UNCHANGED fuel
   \/ BroadcastDrained /\ Rotation /\ UNCHANGED fuel
 MCNext == MCStep /\ due' = DueNext
